@@ -152,4 +152,67 @@ OnlyAddressed(a, b, c) ==
                            /\ (Field(c.op) = "kw" => \A p \in (u.kw \ t.kw) \cup (t.kw \ u.kw) :
                                                          \E j \in 1..Len(c.kws) : c.kws[j].k = p[1])
 
+
+\* ---- directories: where a list is written and where the target is defined ------------------------------------------
+\* Build files live in directories (subdir()); a target of directory tdir may take its sources / extra files from a
+\* list that is written in another build file (a variable assigned in the parent or in a sibling directory).  Meson
+\* resolves the elements of such a list by the KIND of the list:
+\*   "strings"  plain strings are file names relative to the directory of the TARGET that consumes them;
+\*   "files"    files(...) objects remember the directory of the build file files() is WRITTEN in.
+\* The file names of a command are relative to the source root.  Paths are code point sequences, "/" separates.
+RECURSIVE SplitAt(_, _, _), NormSegs(_, _), JoinSegs(_), CommonLen(_, _, _)
+SplitAt(p, i, cur) == IF i > Len(p) THEN <<cur>>
+                      ELSE IF p[i] = 47 THEN <<cur>> \o SplitAt(p, i + 1, <<>>) ELSE SplitAt(p, i + 1, Append(cur, p[i]))
+Segs(p) == SplitAt(p, 1, <<>>)
+SegDot == <<46>>
+SegUp == <<46, 46>>
+NormSegs(segs, acc) ==
+    IF segs = <<>> THEN acc
+    ELSE LET s == Head(segs) IN
+         IF s = <<>> \/ s = SegDot THEN NormSegs(Tail(segs), acc)
+         ELSE IF s = SegUp /\ acc # <<>> /\ acc[Len(acc)] # SegUp THEN NormSegs(Tail(segs), SubSeq(acc, 1, Len(acc) - 1))
+         ELSE NormSegs(Tail(segs), Append(acc, s))
+JoinSegs(segs) == IF segs = <<>> THEN <<>> ELSE IF Len(segs) = 1 THEN segs[1] ELSE segs[1] \o <<47>> \o JoinSegs(Tail(segs))
+PathSegs(p) == NormSegs(Segs(p), <<>>)
+\* the path without ".", ".." and empty segments ("s/../a.c" = "a.c")
+NormPath(p) == JoinSegs(PathSegs(p))
+CommonLen(a, b, k) == IF k < Len(a) /\ k < Len(b) /\ a[k + 1] = b[k + 1] THEN CommonLen(a, b, k + 1) ELSE k
+\* how the file p (relative to the root) is written relative to the directory base
+RelPath(base, p) ==
+    LET bs == PathSegs(base)
+        ps == PathSegs(p)
+        k == CommonLen(bs, ps, 0)
+    IN JoinSegs([j \in 1..(Len(bs) - k) |-> SegUp] \o SubSeq(ps, k + 1, Len(ps)))
+
+\* the directory the elements of a list are relative to
+BaseDir(kind, wdir, tdir) == IF kind = "files" THEN wdir ELSE tdir
+\* the file (relative to the root) an element e of a list of that kind, written in wdir and consumed by a target of tdir, denotes
+Resolve(kind, wdir, tdir, e) == NormPath(Join(BaseDir(kind, wdir, tdir), e))
+\* how the file f must be written in such a list
+Spell(kind, wdir, tdir, f) == RelPath(BaseDir(kind, wdir, tdir), f)
+
+\* A layout project: lists [kind, wdir, items] by name, targets [name, dir, src, extra] whose src / extra are sets of
+\* list names.  It denotes the abstract project LayoutProject(lp).
+SrcList(kind, wdir, items) == [kind |-> kind, wdir |-> wdir, items |-> items]
+LTarget(name, dir, src, extra) == [name |-> name, dir |-> dir, src |-> src, extra |-> extra]
+Denotes(L, tdir) == { Resolve(L.kind, L.wdir, tdir, e) : e \in L.items }
+ListsOf(t, fld) == IF fld = "src" THEN t.src ELSE t.extra
+FilesOf(lp, t, fld) == UNION { Denotes(lp.lists[l], t.dir) : l \in ListsOf(t, fld) }
+LayoutProject(lp) ==
+    [tg |-> { Target(t.name, "executable", t.dir, FilesOf(lp, t, "src"), FilesOf(lp, t, "extra"), {}) : t \in lp.tg },
+     pk |-> {}, dopts |-> {}, vars |-> {}]
+\* the lists only this field of this target is fed from: the only ones an edit may touch
+PrivateLists(lp, t, fld) == { l \in ListsOf(t, fld) : \A u \in lp.tg : \A g \in {"src", "extra"} : (l \in ListsOf(u, g)) => (u = t /\ g = fld) }
+SharedFiles(lp, t, fld) == UNION { Denotes(lp.lists[l], t.dir) : l \in ListsOf(t, fld) \ PrivateLists(lp, t, fld) }
+\* the edit of an add command carried out in list l: every file the target does not have yet is written as Spell says
+AddInList(lp, t, fld, l, fs) ==
+    LET L == lp.lists[l] IN
+    [lp EXCEPT !.lists[l].items = @ \cup { Spell(L.kind, L.wdir, t.dir, f) : f \in fs \ FilesOf(lp, t, fld) }]
+\* the edit of a remove command: every element of a private list that denotes one of the files goes
+RmInLists(lp, t, fld, fs) ==
+    [lp EXCEPT !.lists = [l \in DOMAIN lp.lists |->
+        IF l \in PrivateLists(lp, t, fld)
+        THEN [lp.lists[l] EXCEPT !.items = { e \in @ : Resolve(lp.lists[l].kind, lp.lists[l].wdir, t.dir, e) \notin fs }]
+        ELSE lp.lists[l]]]
+
 =============================================================================
